@@ -43,7 +43,7 @@ CHECKS.update({
     "C07": _otap("fault_enumeration", "The payload-level fault alphabet (relabel, drop, duplicate, swap, empty, unknown / retired schema id) is enumerated over positions x valid prefixes (0-3 batches) x optional follow-up batches for all three signals and applied to real batches; "
                  "OtapObs.tla judges no-panic, no success-while-discarding-the-main-record, and complete decoding of well-formed batches on healthy streams. "
                  "Stream.tla (stream producers / faults in flight / Consume loop with the IPC reader state machine / RelatedDataFrom dispatch) is model checked exhaustively for NoPanic, NoSilentLoss, HealthyOK, Sync and the soundness of the domain rule, "
-                 "its five specification mutants must each violate an invariant, and StreamTrace.tla validates every recorded Produce / Consume step of every stream (outcome and both stream maps, read through the verif-tagged projection) against it.", "7 C07",
+                 "its five specification mutants must each violate an invariant, behaviours simulated by TLC from StreamSim.tla (three signals, growing schema levels, up to four faults over five batches) are concretised into streams for the real producer/consumer, and StreamTrace.tla validates every recorded Produce / Consume step of every stream (outcome and both stream maps, read through the verif-tagged projection) against it.", "7 C07",
                  technique="impl TLA+ spec Stream.tla model checked by TLC + white-box trace validation (StreamTrace.tla) of recorded producer/consumer steps; verdicts by the black-box monitor OtapObs.tla run by TLC on the same recordings"),
     "C08": _otap("exploration", "Unguarded seeded inputs (invalid UTF-8, huge timestamps, deep nesting), sparse first batches (columns introduced with only zeros), 65,535/65,536/65,537-parent batches for every id-bearing table as first and later batches, and dictionary regimes under every option; "
                  "every encode outcome (ok / error / panic) is an event judged by OtapObs.tla.", "7 C08"),
